@@ -128,7 +128,10 @@ def h_send(code: int) -> bool:
     pre: 0 <= code < CODEMAX
     post: _
     """
-    return _send(code, False)
+    try:
+        return _send(code, False)
+    except Prune:
+        return True
 
 
 def h_send_twin(code: int) -> bool:
@@ -136,7 +139,10 @@ def h_send_twin(code: int) -> bool:
     pre: 0 <= code < CODEMAX
     post: _
     """
-    return _send(code, True)
+    try:
+        return _send(code, True)
+    except Prune:
+        return True
 
 
 def _recv(n1, n2, cut, ks, eintr, want):
@@ -202,7 +208,10 @@ def h_recv(code: int, frags: List[bool]) -> bool:
     pre: 0 <= code < CODEMAX and len(frags) == NFRAG
     post: _
     """
-    return _recv_code(code, False, frags if not FULLFRAG else None)
+    try:
+        return _recv_code(code, False, frags if not FULLFRAG else None)
+    except Prune:
+        return True
 
 
 def h_recv_twin(code: int, frags: List[bool]) -> bool:
@@ -210,7 +219,10 @@ def h_recv_twin(code: int, frags: List[bool]) -> bool:
     pre: 0 <= code < CODEMAX and len(frags) == NFRAG
     post: _
     """
-    return _recv_code(code, True, frags if not FULLFRAG else None)
+    try:
+        return _recv_code(code, True, frags if not FULLFRAG else None)
+    except Prune:
+        return True
 
 
 def h_limits(code: int) -> bool:
@@ -218,6 +230,13 @@ def h_limits(code: int) -> bool:
     pre: 0 <= code < CODEMAX
     post: _
     """
+    try:
+        return _limits_code(code)
+    except Prune:
+        return True
+
+
+def _limits_code(code):
     nd = NDCode(code)
     n = PART % (NMAX + 1) if NPART > 1 else nd.draw(0, NMAX)
     into = ((PART // (NMAX + 1)) % 2 == 1) if NPART > 1 else nd.flag()
